@@ -447,3 +447,187 @@ def extcase_rule(run, rid, p, funcs, text, triage_tbl=None):
                     norm(x)[:70], 'the lower-cased extension' if st else 'the extension as spelled in the file name, so '
                     'X.%s is not recognised' % (lits[0].lstrip('.').upper())), fn=f, node=x)
     return n
+
+
+# ---------------------------------------------------------------------------------------------
+# observed values only: what discovery measures must come from the values present, never from a
+# categorical column's declared levels
+
+DECLARED_POSITIVE = '''
+def f(c):
+    a = c.cat.categories
+    b = c.value_counts().index
+    d = c.cat.remove_unused_categories().cat.categories
+    e = c.value_counts()
+    e = e[e > 0]
+'''
+
+
+def declared_level_sites(fnode):
+    """(node, what) for every use of an API that reports a categorical's declared levels rather than the values present."""
+    out = []
+    body_nodes = list(ast.walk(fnode))
+    zero_filtered = set()
+    for x in body_nodes:
+        if isinstance(x, ast.Compare) and isinstance(x.left, ast.Name) and len(x.ops) == 1 and \
+                isinstance(x.ops[0], (ast.Gt, ast.NotEq)) and isinstance(x.comparators[0], ast.Constant) and x.comparators[0].value == 0:
+            zero_filtered.add(x.left.id)
+    for x in body_nodes:
+        if isinstance(x, ast.Attribute) and x.attr == 'categories':
+            chain = norm(x.value)
+            if 'remove_unused_categories' in chain:
+                continue
+            out.append((x, '%s (declared levels, including ones no record holds)' % norm(x)[:50]))
+        if isinstance(x, ast.Call) and isinstance(x.func, ast.Attribute) and x.func.attr == 'value_counts':
+            if 'remove_unused_categories' in norm(x.func.value):
+                continue
+            # accepted when the result is bound to a name that is then filtered on count > 0
+            bound = None
+            for s in body_nodes:
+                if isinstance(s, ast.Assign) and s.value is x and len(s.targets) == 1 and isinstance(s.targets[0], ast.Name):
+                    bound = s.targets[0].id
+            if bound and bound in zero_filtered:
+                continue
+            out.append((x, '%s (lists declared categories with a count of zero)' % norm(x)[:50]))
+    return out
+
+
+def observed_rule(run, rid, p, funcs, text):
+    run.rule(rid, text)
+    pos = declared_level_sites(ast.parse(DECLARED_POSITIVE).body[0])
+    if len(pos) != 2:
+        raise AnalysisErrorCommon('observed-values rule no longer matches its embedded example (%d sites)' % len(pos))
+    n = 0
+    for f in funcs:
+        n += 1
+        sites = declared_level_sites(f.node)
+        if not sites:
+            run.ob(rid, '%s::%s' % (f.rel, f.short), True, 'no declared-level API', fn=f, nontrivial=False)
+        for node, what in sites:
+            run.ob(rid, '%s::%s::%s' % (f.rel, f.short, norm(node)[:60]), False,
+                   '%s takes values from %s' % (f.short, what), fn=f, node=node)
+    return n
+
+
+# ---------------------------------------------------------------------------------------------
+# entry points leave the caller's containers alone
+
+MUTATORS = {'append', 'extend', 'insert', 'pop', 'remove', 'clear', 'sort', 'reverse', 'update', 'add', 'discard',
+            'setdefault', 'popitem', '__setitem__', '__delitem__', 'difference_update', 'intersection_update',
+            'symmetric_difference_update', 'subtract'}
+
+
+def _expr_nodes(stmt):
+    """Nodes of a statement that belong to it and not to a nested statement block or nested def."""
+    if isinstance(stmt, (ast.FunctionDef, ast.AsyncFunctionDef, ast.ClassDef)):
+        return []
+    out = []
+    stack = [stmt]
+    first = True
+    while stack:
+        x = stack.pop()
+        if not first and isinstance(x, (ast.stmt, ast.ExceptHandler, ast.match_case)):
+            continue
+        if isinstance(x, (ast.Lambda, ast.FunctionDef, ast.AsyncFunctionDef)):
+            continue
+        first = False
+        out.append(x)
+        for fld, v in ast.iter_fields(x):
+            if fld in ('body', 'orelse', 'finalbody', 'handlers', 'cases') and isinstance(x, ast.stmt):
+                continue
+            if isinstance(v, ast.AST):
+                stack.append(v)
+            elif isinstance(v, list):
+                stack.extend(y for y in v if isinstance(y, ast.AST))
+    return out
+
+
+def param_mutations(p, f, pname, ctx=None, depth=0, seen=None):
+    """[(fn, node, how)] in-place changes to the object parameter `pname` of f refers to, in f and in the functions it
+    is handed to.  A forward may-alias walk over the statement structure: a name refers to the caller's object from
+    `name = <alias>` until it is rebound; if/else arms are joined by union, loop bodies are walked twice."""
+    from .c10 import stored_names
+    seen = seen if seen is not None else set()
+    if (f.qn, pname) in seen or depth > 4:
+        return []
+    seen.add((f.qn, pname))
+    out = []
+    found = set()
+    callmap = {}
+    for call, ts, kind in p.calls(f, ctx):
+        if kind == 'resolved':
+            callmap[id(call)] = ts
+
+    def visit_exprs(stmt, al):
+        for x in _expr_nodes(stmt):
+            if isinstance(x, ast.Call):
+                if isinstance(x.func, ast.Attribute) and x.func.attr in MUTATORS and isinstance(x.func.value, ast.Name) \
+                        and x.func.value.id in al:
+                    hit(x, '%s.%s()' % (x.func.value.id, x.func.attr))
+                for g, c2 in callmap.get(id(x), ()):
+                    ps = [q for q in g.posparams if q not in ('self', 'cls')] if g.cls is not None else list(g.posparams)
+                    for i, a in enumerate(x.args):
+                        if isinstance(a, ast.Name) and a.id in al and i < len(ps):
+                            sub(g, ps[i], c2)
+                    for kw in x.keywords:
+                        if kw.arg and isinstance(kw.value, ast.Name) and kw.value.id in al and kw.arg in g.params:
+                            sub(g, kw.arg, c2)
+
+    def hit(node, how):
+        if (id(node), how) not in found:
+            found.add((id(node), how))
+            out.append((f, node, how))
+
+    def sub(g, q, c2):
+        for r in param_mutations(p, g, q, c2, depth + 1, seen):
+            if (id(r[1]), r[2]) not in found:
+                found.add((id(r[1]), r[2]))
+                out.append(r)
+
+    def walk(stmts, al):
+        for s in stmts:
+            if isinstance(s, (ast.FunctionDef, ast.AsyncFunctionDef, ast.ClassDef)):
+                continue
+            visit_exprs(s, al)
+            if isinstance(s, ast.Delete):
+                for t in s.targets:
+                    if isinstance(t, ast.Subscript) and isinstance(t.value, ast.Name) and t.value.id in al:
+                        hit(s, 'del %s' % norm(t))
+            if isinstance(s, (ast.Assign, ast.AugAssign, ast.AnnAssign)):
+                tg = s.targets if isinstance(s, ast.Assign) else [s.target]
+                for t in tg:
+                    if isinstance(t, ast.Subscript) and isinstance(t.value, ast.Name) and t.value.id in al:
+                        hit(s, 'store into %s' % norm(t))
+                    if isinstance(s, ast.AugAssign) and isinstance(t, ast.Name) and t.id in al:
+                        hit(s, 'in-place %s' % norm(s)[:40])
+            if isinstance(s, ast.Assign) and len(s.targets) == 1 and isinstance(s.targets[0], ast.Name):
+                if isinstance(s.value, ast.Name) and s.value.id in al:
+                    al = al | {s.targets[0].id}
+                else:
+                    al = al - {s.targets[0].id}
+            elif not isinstance(s, ast.AugAssign):
+                al = al - set(stored_names(s))
+            if isinstance(s, ast.If):
+                al = walk(s.body, al) | walk(s.orelse, al)
+            elif isinstance(s, (ast.For, ast.AsyncFor, ast.While)):
+                a1 = walk(s.body, al)
+                a2 = walk(s.body, al | a1)
+                al = walk(s.orelse, al | a1 | a2)
+            elif isinstance(s, (ast.With, ast.AsyncWith)):
+                al = walk(s.body, al)
+            elif isinstance(s, ast.Try):
+                a1 = walk(s.body, al)
+                hs = set()
+                for h in s.handlers:
+                    hs |= walk(h.body, al | a1)
+                a2 = walk(s.orelse, a1)
+                al = walk(s.finalbody, al | a1 | a2 | hs)
+            elif isinstance(s, ast.Match):
+                acc = set(al)
+                for c in s.cases:
+                    acc |= walk(c.body, al)
+                al = acc
+        return al
+
+    walk(f.node.body, frozenset([pname]))
+    return out
